@@ -98,13 +98,11 @@ def c16_roundtrip(f_group_rel: bool, f_extra: bool, f_trans: bool, f_params: boo
     t1 = tree(survey.xml())
     # a: workbook JSON is JSON-typed and reloads to the same XForm
     sa = create_survey_element_from_dict(jsoncopy(js))
-    shims.s3_prefill_xpath(sa)
     if tree(sa.xml()) != t1:
         return False
     # b: survey dump -> load -> dump is stable and regenerates the same XForm
     j1 = survey.to_json_dict()
     s2 = create_survey_element_from_dict(jsoncopy(j1))
-    shims.s3_prefill_xpath(s2)
     t2 = tree(s2.xml())
     j2 = s2.to_json_dict()
     if t2 != t1:
@@ -143,7 +141,6 @@ def c16_search_reload(after_xml: bool, c0: int) -> bool:
         t1 = tree(survey.xml())
     j1 = survey.to_json_dict()
     s2 = create_survey_element_from_dict(jsoncopy(j1))
-    shims.s3_prefill_xpath(s2)
     t2 = tree(s2.xml())
     if t1 is None:
         t1 = tree(survey.xml())
